@@ -215,6 +215,14 @@ Fixpoint reval (e : expr) (fr : frame) (g : glob) {struct e} : res eout :=
       | r => r
       end
   | EPanic => Res (EX (VErr "go panic")) fr g         (* an internal error is thrown like any other *)
+  | EMatch s m =>
+      (* strict comparison against the arm conditions in order; the first arm with an identical
+         condition gives the value; `default` when none; origami: null when there is no default
+         (PHP would throw UnhandledMatchError — a deliberate, tested difference of the language) *)
+      match reval s fr g with
+      | Res (EV v) fr g => reval_arms v m fr g
+      | r => r
+      end
   end
 with reval_args (a : args) (fr : frame) (g : glob) {struct a} : res (list value + value) :=
   match a with
@@ -226,6 +234,28 @@ with reval_args (a : args) (fr : frame) (g : glob) {struct a} : res (list value 
           | Res (inl vs) fr g => Res (inl (v :: vs)) fr g
           | r => r
           end
+      | Res (EX x) fr g => Res (inr x) fr g
+      | Fuel => Fuel
+      end
+  end
+with reval_arms (v : value) (m : marms) (fr : frame) (g : glob) {struct m} : res eout :=
+  match m with
+  | MNil => Res (EV VNull) fr g
+  | MDefault e => reval e fr g
+  | MCons c e r =>
+      match reval_conds v c fr g with
+      | Res (inl true) fr g => reval e fr g
+      | Res (inl false) fr g => reval_arms v r fr g
+      | Res (inr x) fr g => Res (EX x) fr g
+      | Fuel => Fuel
+      end
+  end
+with reval_conds (v : value) (c : args) (fr : frame) (g : glob) {struct c} : res (bool + value) :=
+  match c with
+  | ANil => Res (inl false) fr g
+  | ACons e r =>
+      match reval e fr g with
+      | Res (EV w) fr g => if same_value v w then Res (inl true) fr g else reval_conds v r fr g
       | Res (EX x) fr g => Res (inr x) fr g
       | Fuel => Fuel
       end
